@@ -31,6 +31,7 @@ static std::vector<std::map<int, int>> succ;
 static int init_sid = -1;
 static bool with_op = false;
 // OpMode "shared" of History.tla: ONE operation object, kept by the caller, registered with every generator of the behaviour
+static vh::ambient g_ambient0;   // captured in main() before the first library call
 static bool shared_op = false;
 // OpMode "pair": two operations whose order matters (first electron locked with a rotation of the whole event, then every gamma
 // locked into another cone), registered in that order with every generator - each generator has objects of its own
@@ -227,13 +228,36 @@ struct Runner
       if (vkeys.insert(key).second) viols.push_back({key, std::string("unexpected exception in ") + a.name + ": " + e.what(), seqstr()});
       dead = true;
     }
+    // whatever the call did, the process-wide registers are as the harness set them up
+    {
+      std::string reg = g_ambient0.diff(vh::ambient::capture());
+      if (!reg.empty()) {
+        std::string key = "ambient:" + reg;
+        if (vkeys.insert(key).second)
+          viols.push_back({key, "after " + a.name + " the process-wide " + reg + " is not what it was before the first library call: a later call (of this or "
+                                  "of any other instance) runs in an environment that depends on the calls made before", seqstr()});
+        dead = true;
+      }
+    }
     cur = it->second;
     return true;
   }
 };
 
+// a handler of the application's own: "restored" has to mean restored to THIS one
+static void app_gsl_handler(const char * reason, const char * file, int line, int gsl_errno)
+{
+  fprintf(stderr, "gsl: %s:%d: ERROR: %s (%d)\n", file, line, reason, gsl_errno);
+  abort();
+}
+
 int main(int argc, char ** argv)
 {
+  // the application's own process-wide settings, all different from the start-up defaults where that changes no result
+  std::setlocale(LC_ALL, "C.UTF-8");
+  ::umask(027);
+  gsl_set_error_handler(&app_gsl_handler);
+  g_ambient0 = vh::ambient::capture();
   std::string graph;
   bool do_cover = false;
   long walks = 0, walklen = 10;
